@@ -4,10 +4,13 @@
 (* that transport (what concretely happens to ping 1, 2, ...); for the        *)
 (* property the script is the script of the classes' verdicts (Abstract), and *)
 (* it is that script the ticker loop of KeepAlive.tla runs on - the loop does *)
-(* not know transports.  That is the statement checked on the real code: a    *)
-(* "429", a "500", a refused connection or an undeliverable ping is a miss    *)
-(* like a time-out (tolerated below the threshold, Accuracy), a "404 session  *)
-(* not found" or a broken pipe may end the session at once.                   *)
+(* not know transports.  (Where the table is permissive the loop needs one of *)
+(* the two permitted readings to run on: CodeScript; TrProp checks the run    *)
+(* against the table's verdicts all the same.)  That is the statement checked *)
+(* on the real code: a "429", a "500", a refused connection or an             *)
+(* undeliverable ping is a miss like a time-out (tolerated below the          *)
+(* threshold, Accuracy), a "404 session not found" or a broken pipe may end   *)
+(* the session at once.                                                       *)
 (*                                                                            *)
 (* Scripts: every script of at most Norm(T) + 1 classes that can be consumed  *)
 (* to its end (nothing before its last ping ends keep-alive or the session),  *)
